@@ -1382,7 +1382,8 @@ Qed.
 
 (* A handler script is a list of numbers: 1 n (read n bytes), 2 (read to the end), 3 k (fill the buffer, consume k),
    4 s (set_stream(Some s)), 5 (writeable), 6 s n data (write data on stream s), 7 s (flush), 8 d c (return the
-   exit status (d, c)), 9 k (return an error), 10 n (read n bytes, return the read error if there is one).  A script is well-formed if it only uses these opcodes with
+   exit status (d, c)), 9 k (return an error), 10 n (read n bytes, return the read error if there is one), 11 n (poll a
+   read of n bytes once without awaiting it: a Pending result is abandoned).  A script is well-formed if it only uses these opcodes with
    their arities and every exit status is a value of ExitStatus.  With [strict = true] it is moreover required
    that every set_stream is accepted by the stream order at that point ([cur] is the active stream: writeable()
    moves it to the role's last stream); with [strict = false] a rejected set_stream is the handler's own
@@ -1399,7 +1400,8 @@ Inductive script_ok (strict : bool) (role : N) : option N -> list N -> Prop :=
 | SO_flush cur s rest : script_ok strict role cur rest -> script_ok strict role cur (7 :: s :: rest)
 | SO_exit cur d c rest : In d EXITSTATUS_VALUES -> script_ok strict role cur (8 :: d :: c :: rest)
 | SO_fail cur k rest : script_ok strict role cur (9 :: k :: rest)
-| SO_readq cur n rest : script_ok strict role cur rest -> script_ok strict role cur (10 :: n :: rest).
+| SO_readq cur n rest : script_ok strict role cur rest -> script_ok strict role cur (10 :: n :: rest)
+| SO_poll cur n rest : script_ok strict role cur rest -> script_ok strict role cur (11 :: n :: rest).
 
 Definition okhalt70 (strict : bool) (w : world) (o : outcome) : Prop :=
   okhalt w o \/ (strict = false /\ o = OPanic 70).
@@ -1435,7 +1437,7 @@ Lemma run_handler_ok strict role cur script : script_ok strict role cur script -
   hpost strict r w (run_handler maxc f script r w).
 Proof.
   induction 1 as [cur|cur n rest H IH|cur rest H IH|cur k rest H IH|cur s rest Hacc H IH|cur rest H IH
-                  |cur s n rest H IH|cur s rest H IH|cur d c rest Hd|cur k rest|cur n rest H IH];
+                  |cur s n rest H IH|cur s rest H IH|cur d c rest Hd|cur k rest|cur n rest H IH|cur n rest H IH];
     intros f r w Hf G Wok Hrole Hcur; (destruct f as [|f]; [cbn [length] in Hf; lia|]); cbn [length] in Hf; cbn [run_handler].
   - (* end of script *)
     split; [apply hkeep_world with (w' := w); [apply hkeep_refl; exact G|apply wstep_ev]|apply exit_complete_in].
@@ -1566,6 +1568,20 @@ Proof.
     + destruct AI as [AI _]. destruct (ckeep_hkeep _ _ _ _ _ AI) as [H1 S1].
       split; [|exact I]. apply hkeep_world with (w' := w1); [exact H1|]. eapply wstep_trans; apply wstep_ev.
     + destruct AI as [A1 A2]. split; [exact A1|left; exact A2].
+  - (* 11 n: one poll, not awaited; whatever the result, the script continues *)
+    pose proof (poll_input_ok (io_fuel w (len (buffer (rsp r)))) (Some n) r w G Wok ltac:(rewrite io_fuel_eq; lia)) as PI.
+    assert (T : forall r1 w1 d e b, ckeep r w 0 r1 w1 d ->
+              hpost strict r w (run_handler maxc f rest r1 (w_ev (w_ev w1 e) b))).
+    { intros r1 w1 d e b C. destruct (ckeep_hkeep _ _ _ _ _ C) as [H1 S1].
+      assert (H2 : hkeep r w r1 (w_ev (w_ev w1 e) b)).
+      { apply hkeep_world with (w' := w1); [exact H1|]. eapply wstep_trans; apply wstep_ev. }
+      apply (hpost_cont _ _ _ _ _ _ H2). pose proof H2 as (G2 & S2 & Q2 & _).
+      apply IH; [lia|exact G2|exact (ws_ok _ _ S2 Wok)|rewrite Q2; exact Hrole|congruence]. }
+    destruct (poll_input maxc (io_fuel w (len (buffer (rsp r)))) (Some n) r w) as [[[[[c b]|k]| |] r1] w1].
+    + eapply T. exact PI.
+    + eapply T. exact (proj1 PI).
+    + eapply T. exact (proj1 PI).
+    + eapply T. exact (proj1 PI).
 Qed.
 
 (* ---- the request parser makes progress: from the state Header it cannot finish without consuming ---- *)
